@@ -131,6 +131,13 @@ func (sr *schedRun) opFunc(o schedOp, ret *string) func() {
 		case "dispatch":
 			u := &mercure.Update{Topics: []string{fmt.Sprintf("t%d", o.Topic)}, Event: mercure.Event{ID: fmt.Sprintf("u%d", o.ID)}}
 			*ret = retString(sr.tr.Dispatch(u))
+		case "dispatchfail":
+			// a publication whose write transaction fails (bbolt refuses a key over 32 KiB): refused, and — to the
+			// model — without any effect. Meaningful on the persistent transport only.
+			if sr.bolt != nil {
+				u := &mercure.Update{Topics: []string{fmt.Sprintf("t%d", o.Topic)}, Event: mercure.Event{ID: strings.Repeat("k", 40000)}}
+				*ret = retString(sr.tr.Dispatch(u))
+			}
 		case "add":
 			*ret = retString(sr.tr.AddSubscriber(sr.subs[o.Sub]))
 		case "remove":
@@ -346,6 +353,9 @@ func runSchedCaseT(c *h.Ctx, r *h.Report, cs schedCase) (trace []int, disagreed 
 					}()
 					sr.opFunc(o, &ret)()
 				}()
+				if o.Op == "dispatchfail" {
+					continue // refused: nothing happened as far as the model is concerned
+				}
 				sr.emit(opLine(o), "ok")
 			}
 			sr.emit("sys.runall", "ok")
@@ -669,6 +679,11 @@ func pairConfigs() []schedCase {
 			req := "1"
 			if kind == "local" {
 				req = "-"
+			}
+			if kind == "bolt" {
+				// a registration with the id of the last stored update, racing a publication, right after a publication
+				// whose write transaction failed
+				out = append(out, schedCase{Kind: kind, Cap: capacity, Phases: []schedPhase{{Pre: []schedOp{d(1), {Op: "dispatchfail"}}, Subs: []schedSub{{Topics: []int{0}, Req: req}}, Ops: []schedOp{{Op: "add", Sub: 0}, d(2)}}}})
 			}
 			out = append(out, schedCase{Kind: kind, Cap: capacity, Phases: []schedPhase{{Pre: []schedOp{d(1)}, Subs: []schedSub{{Topics: []int{0}, Req: req}}, Ops: []schedOp{{Op: "add", Sub: 0}, {Op: "disconnect", Sub: 0}}}}},
 				schedCase{Kind: kind, Cap: capacity, Phases: []schedPhase{{Pre: []schedOp{d(1)}, Subs: []schedSub{{Topics: []int{0}, Req: req}}, Ops: []schedOp{{Op: "add", Sub: 0}, {Op: "close"}}}}})
